@@ -97,6 +97,28 @@ func concRefresh(args []string, out *bufio.Writer) {
 				}()
 			},
 		}
+		// every third script: a bounded executor - ONE worker running the tasks in submission order (a task that waits for
+		// work queued behind it would block everything: C08 "every waiter terminates")
+		var queue chan func()
+		var holdFirst atomic.Bool
+		if i%3 == 2 {
+			queue = make(chan func(), 1024)
+			go func() {
+				for fn := range queue {
+					fn()
+					pending.Done()
+				}
+			}()
+			o.Executor = func(fn func()) {
+				pending.Add(1)
+				// the first submission of a round is held back a little on its caller's goroutine, so that a later submission
+				// overtakes it in the queue: the order in which tasks are ACCEPTED must not matter
+				if holdFirst.CompareAndSwap(true, false) {
+					time.Sleep(300 * time.Microsecond)
+				}
+				queue <- fn
+			}
+		}
 		withExpiry := r.chance(0.6)
 		if withExpiry {
 			o.ExpiryCalculator = otter.ExpiryWriting[int, int](time.Hour)
@@ -105,7 +127,7 @@ func concRefresh(args []string, out *bufio.Writer) {
 			o.MaximumSize = 100
 		}
 		c := otter.Must(o)
-		fmt.Fprintf(out, "cfg expiry=%v bounded=%v\n", withExpiry, o.MaximumSize != 0)
+		fmt.Fprintf(out, "cfg expiry=%v bounded=%v oneworker=%v\n", withExpiry, o.MaximumSize != 0, queue != nil)
 		rounds := 4 + r.intn(8)
 		val := 10
 		for round := 0; round < rounds; round++ {
@@ -144,9 +166,21 @@ func concRefresh(args []string, out *bufio.Writer) {
 					}
 				}
 			}
-			var ch <-chan otter.RefreshResult[int, int]
+			// (one to three callers refresh explicitly and concurrently: each gets its own channel and exactly one result on it)
+			var chs []<-chan otter.RefreshResult[int, int]
 			if explicit {
-				ch = c.Refresh(context.Background(), k, ld)
+				nref := 1 + r.intn(3)
+				holdFirst.Store(nref > 1)
+				chs = make([]<-chan otter.RefreshResult[int, int], nref)
+				var rwg sync.WaitGroup
+				for q := 0; q < nref; q++ {
+					rwg.Add(1)
+					go func(q int) {
+						defer rwg.Done()
+						chs[q] = c.Refresh(context.Background(), k, ld)
+					}(q)
+				}
+				rwg.Wait()
 			}
 			crowd := func(size int) {
 				var wg sync.WaitGroup
@@ -183,34 +217,50 @@ func concRefresh(args []string, out *bufio.Writer) {
 				}
 				time.Sleep(50 * time.Microsecond)
 			}
-			pending.Wait()
+			pdone := make(chan struct{})
+			go func() { pending.Wait(); close(pdone) }()
+			select {
+			case <-pdone:
+			case <-time.After(5 * time.Second):
+				settled = false
+			}
+			// results = what the worst channel delivered (every channel must deliver exactly one result, all the same)
 			results, chanErr := 0, "-"
-			if explicit && ch != nil {
-				timeout := time.After(3 * time.Second)
-			collect:
-				for {
-					select {
-					case res, ok := <-ch:
-						if !ok {
+			for qi, ch := range chs {
+				got, tok := 0, "-"
+				if ch != nil {
+					timeout := time.After(3 * time.Second)
+				collect:
+					for {
+						select {
+						case res, ok := <-ch:
+							if !ok {
+								break collect
+							}
+							got++
+							switch {
+							case res.Err == nil:
+								tok = fmt.Sprintf("nil:%d", res.Value)
+							case errors.Is(res.Err, otter.ErrNotFound):
+								tok = "nf"
+							default:
+								tok = "err"
+							}
+							if got > 1 {
+								break collect
+							}
+							// a second result must not follow: give it a moment
+							timeout = time.After(20 * time.Millisecond)
+						case <-timeout:
 							break collect
 						}
-						results++
-						switch {
-						case res.Err == nil:
-							chanErr = fmt.Sprintf("nil:%d", res.Value)
-						case errors.Is(res.Err, otter.ErrNotFound):
-							chanErr = "nf"
-						default:
-							chanErr = "err"
-						}
-						if results > 1 {
-							break collect
-						}
-						// a second result must not follow: give it a moment
-						timeout = time.After(20 * time.Millisecond)
-					case <-timeout:
-						break collect
 					}
+				}
+				if qi == 0 || got != 1 || (tok != chanErr && results == 1) {
+					results, chanErr = got, tok
+				}
+				if results != 1 {
+					break
 				}
 			}
 			after, present := c.GetEntryQuietly(k)
@@ -226,5 +276,8 @@ func concRefresh(args []string, out *bufio.Writer) {
 			}
 		}
 		c.StopAllGoroutines()
+		if queue != nil {
+			close(queue)
+		}
 	}
 }
